@@ -106,6 +106,14 @@ MUTATIONS: list[tuple[str, list[str], str, list]] = [
     ("T2", ["C14"], "Scipy.integrate_time_course: ABSOLUTE tolerance, `abs(time_points[0] - self.t0) > 1e-4` (independent of the absolute "
                     "time; only samples closer than 1e-4 to a switch are lost)",
      [(INT, "        if time_points[0] != self.t0:", "        if abs(time_points[0] - self.t0) > 1e-4:", 1)]),
+    # --- added in the closing pass for seeded/C04-8 (a failed run, clear_results, a fresh run)
+    ("S8", ["C04"], "seeded/C04-8: __init__ / clear_results share a helper _drop_results() that leaves _errors alone "
+                    "(clear_results no longer forgets a recorded failure: the cleared simulator stays inert)",
+     [("patch", "/verif/seeded/C04-8/patch.diff")]),
+    ("F1", ["C04"], "clear_results: `self._errors = []` dropped (the one-line form of seeded/C04-8)",
+     [(SIM, "        self._time_shift = None\n        self._errors = []\n        self._initialise_integrator()", "        self._time_shift = None\n        self._initialise_integrator()", 1)]),
+    ("F2", ["C04"], "clear_results: `self._initialise_integrator()` dropped (the cleared simulator goes on from the old integrator state)",
+     [(SIM, "        self._time_shift = None\n        self._errors = []\n        self._initialise_integrator()", "        self._time_shift = None\n        self._errors = []", 1)]),
     ("T3", ["C14"], "Scipy.integrate_time_course: math.isclose with rel_tol=1e-7 (`not math.isclose(time_points[0], self.t0, rel_tol=1e-7)`)",
      [(INT, "        if time_points[0] != self.t0:", "        if not __import__('math').isclose(time_points[0], self.t0, rel_tol=1e-7):", 1)]),
 ]
